@@ -821,7 +821,9 @@ async fn session(c: &Case) -> CheckResult {
     let peer_as: u32 = if c.ebgp { 65100 } else { 65000 };
     let src = crate::props::wirepeer::fresh_loopback();
     let cfg = NeighborCfg { addr: src, remote_asn: peer_as, local_asn: 0, rs_client: c.ebgp && c.rs_client, rr_client: false, cluster_id: None, admin_down: false, holdtime: 90, families: ALL_FAMILIES.iter().map(|f| (*f, 0)).collect(), prefix_limit: None, gr: None, llgr: None };
-    let mut p = WirePeer::new(65000, cfg).await?;
+    // one external case in four: the speaker is inside a confederation (the peer is outside it all the same)
+    let confed = c.ebgp && (c.nlri.len() + 2 * c.withdrawn.len() + c.fam as usize) % 4 == 1;
+    let mut p = WirePeer::new_in(65000, if confed { Some((64512, vec![65000, 65010])) } else { None }, cfg).await?;
     p.connect().await?;
     let mut caps = vec![Capability::MultiProtocol(Family::IPV4)];
     for f in [fam, ufam] {
@@ -931,6 +933,9 @@ async fn session(c: &Case) -> CheckResult {
         }
         if c.rs_client {
             info = info.class("session/route-server-client");
+        }
+        if confed {
+            info = info.class("session/speaker-in-confederation");
         }
     }
     // (3) what the UPDATE does not mention is untouched
